@@ -1,8 +1,69 @@
 (* C09 — Cancellation is honoured everywhere; context-aware I/O yields exact prefixes. *)
 From Coq Require Import List ZArith Bool Lia.
 Import ListNotations.
-From GU Require Import C09.Model C09.Proofs C09.ProofsB.
+From GU Require Import C09.IR C09.Gen C09.SkExpected C09.Model C09.Proofs C09.ProofsGen C09.ProofsB.
 Local Open Scope Z_scope.
+
+(* The theorems below are about the model INSTANTIATED WITH coq/C09/Gen.v, which translator-c09/cmd/ckpt2coq regenerates
+   from the Go source on every run (safeio facts; check-point structure of files.go / zip.go; programs of the walk /
+   listing / removal families).  Each proof reduces the generated facts it needs by computation, so a changed fact
+   breaks exactly the theorems that depend on it. *)
+
+(* ---------- the generated facts themselves ---------- *)
+
+(* safeio: default capacity capped by a constant (D14), unlimited reader for a negative maximum, buffer wrapped,
+   ReadAll = ReadAtMost(-1,-1), CopyData = io.Copy, the contextual reader / writer are contextio's, Write converts its
+   error, DetermineContextError converts what it reads from the context *)
+Theorem generated_safeio_facts_hold : safeio_facts_ok gen_safeio = true.
+Proof. reflexivity. Qed.
+Print Assumptions generated_safeio_facts_hold.
+
+(* every context-accepting function of files.go / zip.go reaches a context test, and no mutating backend helper is
+   reached before it (callees included): a context done at the call changes nothing *)
+Theorem generated_no_mutation_before_first_context_test :
+  forallb (fun p => p_has_test p && negb (existsb mutating (p_before p))) gen_preludes = true.
+Proof. reflexivity. Qed.
+Print Assumptions generated_no_mutation_before_first_context_test.
+
+(* every loop over entries (walk, ListDirTree, CleanDir, copyFolder, moveFolder, unzip, directory timestamps, the
+   garbage-collection fan-out, SubDirectories): a context test dominates the backend operations of each iteration and
+   the errors of the iteration — cancellation included — are returned, not dropped *)
+Theorem generated_loops_tested_and_errors_returned :
+  forallb (fun l => l_test_dominates l && l_errors_returned l) gen_loops = true /\ (9 <= length gen_loops)%nat.
+Proof. split; [reflexivity|cbn; lia]. Qed.
+Print Assumptions generated_loops_tested_and_errors_returned.
+
+(* the generated programs: every mutating helper (dead branches included, e.g. the symbolic-link branch of
+   removeWithExclusionPatterns) is preceded by a context test; no error of an entry is dropped *)
+Theorem generated_programs_are_guarded :
+  forallb guarded [gen_walk_body; gen_listtree_body; gen_remove_body; gen_walk_entry; gen_listtree_entry; gen_remove_entry;
+                   gen_clean_entry; gen_chmod_entry; gen_chown_entry; gen_lsrecursive_entry] = true.
+Proof. exact generated_programs_guarded. Qed.
+Print Assumptions generated_programs_are_guarded.
+
+(* the traces interpreted from the generated programs are the traces whose stretches are bounded in ProofsB.v *)
+Theorem generated_traces_are_the_analysed_traces : forall e t, ep_trace e t = ep_hand e t.
+Proof. exact ep_trace_is_hand. Qed.
+Print Assumptions generated_traces_are_the_analysed_traces.
+
+(* copy and move: the regenerated skeletons are the ones copy_entry / move_entry were derived from (minimum tie) *)
+Theorem generated_copy_move_skeletons_as_analysed :
+  (gen_sk_CopyBetweenFSWithExclusionPatterns, gen_sk_CopyBetweenFSWithExclusionRegexes, gen_sk_copyFolderBetweenFSWithExclusionRegexes,
+   gen_sk_copyFileBetweenFSWithExclusionPatternsWithExclusionRegexes, gen_sk_VFS_MoveWithContext, gen_sk_VFS_move, gen_sk_VFS_moveFolder,
+   gen_sk_VFS_moveFile, gen_sk_VFS_CopyToDirectoryWithContext)
+  = (exp_sk_CopyBetweenFSWithExclusionPatterns, exp_sk_CopyBetweenFSWithExclusionRegexes, exp_sk_copyFolderBetweenFSWithExclusionRegexes,
+     exp_sk_copyFileBetweenFSWithExclusionPatternsWithExclusionRegexes, exp_sk_VFS_MoveWithContext, exp_sk_VFS_move, exp_sk_VFS_moveFolder,
+     exp_sk_VFS_moveFile, exp_sk_VFS_CopyToDirectoryWithContext).
+Proof. reflexivity. Qed.
+Print Assumptions generated_copy_move_skeletons_as_analysed.
+
+(* the kinds: by the generated rules of ConvertIOError / ConvertContextError and the generated source of
+   DetermineContextError, an ended context is reported as cancelled / timeout and an unexpected end of stream as EOF *)
+Theorem generated_kinds :
+  mid_kind false = KCancelled /\ mid_kind true = KTimeout /\ unexp_kind = KEOF /\ eof_kind = KEOF /\
+  (forall cause, kind_of_ctx (mkCtx false cause) = KCancelled /\ kind_of_ctx (mkCtx true cause) = KTimeout).
+Proof. repeat split. Qed.
+Print Assumptions generated_kinds.
 
 (* ---------- part (a): safeio ---------- *)
 
@@ -85,7 +146,7 @@ Theorem cause_is_irrelevant : forall (c1 c2 : ctxinfo) done rf max n apply size 
   r_kind (copy_data rf (pre_of true c1) (kind_of_ctx c1) src rs ws) = (if cx_deadline c1 then KTimeout else KCancelled).
 Proof.
   intros c1 c2 done rf max n apply size src rs ws H.
-  unfold pre_of, kind_of_ctx. rewrite H. repeat split.
+  unfold pre_of, kind_of_ctx. cbn. rewrite H. repeat split; destruct (cx_deadline c2); reflexivity.
 Qed.
 Print Assumptions cause_is_irrelevant.
 
